@@ -134,7 +134,7 @@ func Getpagesize() int             { return 4096 }
 
 func Chdir(dir string) error {
 	f := Cur
-	f.mu.Lock()
+	f.enter()
 	defer f.mu.Unlock()
 	r, e := f.resolve(dir, true)
 	if e != 0 {
@@ -234,7 +234,7 @@ func Create(name string) (*File, error) {
 
 func OpenFile(name string, flag int, perm FileMode) (*File, error) {
 	f := Cur
-	f.mu.Lock()
+	f.enter()
 	defer f.mu.Unlock()
 	return f.openLocked(name, flag, perm)
 }
@@ -319,7 +319,7 @@ func (f *FS) tmpName() string {
 
 func CreateTemp(dir, pattern string) (*File, error) {
 	f := Cur
-	f.mu.Lock()
+	f.enter()
 	defer f.mu.Unlock()
 	if dir == "" {
 		dir = "/tmp"
@@ -363,7 +363,7 @@ func MkdirTemp(dir, pattern string) (string, error) {
 
 func Mkdir(name string, perm FileMode) error {
 	f := Cur
-	f.mu.Lock()
+	f.enter()
 	defer f.mu.Unlock()
 	return f.mkdirLocked(name, perm)
 }
@@ -442,7 +442,7 @@ func Stat(name string) (FileInfo, error)  { return Cur.stat(name, true, "stat") 
 func Lstat(name string) (FileInfo, error) { return Cur.stat(name, false, "lstat") }
 
 func (f *FS) stat(name string, follow bool, op string) (FileInfo, error) {
-	f.mu.Lock()
+	f.enter()
 	defer f.mu.Unlock()
 	r, e := f.resolve(name, follow)
 	seq, ft := f.begin(op, r.real)
@@ -469,7 +469,7 @@ func (f *FS) stat(name string, follow bool, op string) (FileInfo, error) {
 
 func Remove(name string) error {
 	f := Cur
-	f.mu.Lock()
+	f.enter()
 	defer f.mu.Unlock()
 	r, e := f.resolve(name, false)
 	seq, ft := f.begin("remove", r.real)
@@ -540,7 +540,7 @@ func RemoveAll(path string) error {
 
 func Rename(oldpath, newpath string) error {
 	f := Cur
-	f.mu.Lock()
+	f.enter()
 	defer f.mu.Unlock()
 	ro, eo := f.resolve(oldpath, false)
 	rn, en := f.resolve(newpath, false)
@@ -637,7 +637,7 @@ func Rename(oldpath, newpath string) error {
 
 func Link(oldname, newname string) error {
 	f := Cur
-	f.mu.Lock()
+	f.enter()
 	defer f.mu.Unlock()
 	ro, eo := f.resolve(oldname, false)
 	rn, en := f.resolve(newname, false)
@@ -677,7 +677,7 @@ func Link(oldname, newname string) error {
 
 func Symlink(oldname, newname string) error {
 	f := Cur
-	f.mu.Lock()
+	f.enter()
 	defer f.mu.Unlock()
 	rn, en := f.resolve(newname, false)
 	seq, ft := f.begin("symlink", rn.real)
@@ -708,7 +708,7 @@ func Symlink(oldname, newname string) error {
 
 func Readlink(name string) (string, error) {
 	f := Cur
-	f.mu.Lock()
+	f.enter()
 	defer f.mu.Unlock()
 	r, e := f.resolve(name, false)
 	seq, ft := f.begin("readlink", r.real)
@@ -736,7 +736,7 @@ func Readlink(name string) (string, error) {
 
 func Chmod(name string, mode FileMode) error {
 	f := Cur
-	f.mu.Lock()
+	f.enter()
 	defer f.mu.Unlock()
 	r, e := f.resolve(name, true)
 	seq, ft := f.begin("chmod", r.real)
@@ -836,7 +836,7 @@ func (fl *File) Read(b []byte) (int, error) {
 		return 0, err
 	}
 	f := fl.fs
-	f.mu.Lock()
+	f.enter()
 	defer f.mu.Unlock()
 	seq, ft := f.begin("read", fl.real)
 	rec := OpRecord{Seq: seq, Kind: "read", Path: fl.name, Real: fl.real}
@@ -879,7 +879,7 @@ func (fl *File) ReadAt(b []byte, off int64) (int, error) {
 		return 0, err
 	}
 	f := fl.fs
-	f.mu.Lock()
+	f.enter()
 	defer f.mu.Unlock()
 	if off >= int64(len(fl.node.data)) {
 		return 0, io.EOF
@@ -905,7 +905,7 @@ func (fl *File) Write(b []byte) (int, error) {
 		return 0, err
 	}
 	f := fl.fs
-	f.mu.Lock()
+	f.enter()
 	defer f.mu.Unlock()
 	return fl.writeLocked(b, -1)
 }
@@ -915,7 +915,7 @@ func (fl *File) WriteAt(b []byte, off int64) (int, error) {
 		return 0, err
 	}
 	f := fl.fs
-	f.mu.Lock()
+	f.enter()
 	defer f.mu.Unlock()
 	return fl.writeLocked(b, off)
 }
@@ -992,7 +992,7 @@ func (fl *File) Seek(offset int64, whence int) (int64, error) {
 		return 0, err
 	}
 	f := fl.fs
-	f.mu.Lock()
+	f.enter()
 	defer f.mu.Unlock()
 	var np int64
 	switch whence {
@@ -1021,7 +1021,7 @@ func (fl *File) Truncate(size int64) error {
 		return err
 	}
 	f := fl.fs
-	f.mu.Lock()
+	f.enter()
 	defer f.mu.Unlock()
 	seq, ft := f.begin("truncate", fl.real)
 	rec := OpRecord{Seq: seq, Kind: "truncate", Path: fl.name, Real: fl.real}
@@ -1056,7 +1056,7 @@ func (fl *File) Sync() error {
 		return err
 	}
 	f := fl.fs
-	f.mu.Lock()
+	f.enter()
 	defer f.mu.Unlock()
 	seq, ft := f.begin("sync", fl.real)
 	rec := OpRecord{Seq: seq, Kind: "sync", Path: fl.name, Real: fl.real}
@@ -1085,7 +1085,7 @@ func (fl *File) Close() error {
 		return &PathError{Op: "close", Path: fl.name, Err: ErrClosed}
 	}
 	f := fl.fs
-	f.mu.Lock()
+	f.enter()
 	defer f.mu.Unlock()
 	seq, _ := f.begin("close", fl.real)
 	fl.closed = true
@@ -1101,7 +1101,7 @@ func (fl *File) Stat() (FileInfo, error) {
 		return nil, err
 	}
 	f := fl.fs
-	f.mu.Lock()
+	f.enter()
 	defer f.mu.Unlock()
 	seq, ft := f.begin("fstat", fl.real)
 	rec := OpRecord{Seq: seq, Kind: "fstat", Path: fl.name, Real: fl.real}
@@ -1119,7 +1119,7 @@ func (fl *File) Chmod(mode FileMode) error {
 		return err
 	}
 	f := fl.fs
-	f.mu.Lock()
+	f.enter()
 	defer f.mu.Unlock()
 	seq, _ := f.begin("chmod", fl.real)
 	fl.node.perm = mode & 0o7777
@@ -1199,7 +1199,7 @@ func (fl *File) Readdirnames(n int) ([]string, error) {
 		return nil, ErrInvalid
 	}
 	f := fl.fs
-	f.mu.Lock()
+	f.enter()
 	defer f.mu.Unlock()
 	names, err := fl.readdirCommon(n, "readdirent")
 	if names == nil && err == nil {
@@ -1213,7 +1213,7 @@ func (fl *File) Readdir(n int) ([]FileInfo, error) {
 		return nil, ErrInvalid
 	}
 	f := fl.fs
-	f.mu.Lock()
+	f.enter()
 	defer f.mu.Unlock()
 	names, err := fl.readdirCommon(n, "readdirent")
 	out := []FileInfo{}
@@ -1230,7 +1230,7 @@ func (fl *File) ReadDir(n int) ([]DirEntry, error) {
 		return nil, ErrInvalid
 	}
 	f := fl.fs
-	f.mu.Lock()
+	f.enter()
 	defer f.mu.Unlock()
 	names, err := fl.readdirCommon(n, "readdirent")
 	out := []DirEntry{}
